@@ -16,6 +16,11 @@ use std::path::{Path, PathBuf};
 const S: i64 = 1_000_000_000;
 
 pub fn run_case(ctx: &mut CaseCtx) -> CaseResult {
+    // zones with daylight-saving time: the listing in the repeated hour / with a file from the
+    // skipped hour (child process; the scenario of C06's DST children)
+    if ctx.case % 32 == 22 {
+        return crate::p_c06::dst_case_for(ctx, "C16");
+    }
     if ctx.case % 4 == 1 {
         return try_from_case(ctx);
     }
